@@ -314,7 +314,8 @@ class PolyhedralTerm(Term):
         Example:
             In the term $-2x + y \\le 6$ understood as equality, isolating the
             variable $x$ yields $x = 0.5 y - 3$, which in PolyhedralTerm
-            notation we express as $0.5 y <= -3$.
+            notation we express as $0.5 y <= 3$ (the constant is subtracted
+            when the result is used by `substitute_variable`).
 
         Args:
             var_to_isolate: The variable to be isolated.
@@ -332,7 +333,7 @@ class PolyhedralTerm(Term):
             variables={
                 k: -v / self.get_coefficient(var_to_isolate) for k, v in self.variables.items() if k != var_to_isolate
             },
-            constant=self.constant / self.get_coefficient(var_to_isolate),
+            constant=-self.constant / self.get_coefficient(var_to_isolate),
         )
 
     @staticmethod
